@@ -30,7 +30,8 @@ impl<W: io::Write> io::Write for AnsiWriter<W> {
 
 impl<W: io::Write> encode::Write for AnsiWriter<W> {
     fn set_style(&mut self, style: &Style) -> io::Result<()> {
-        let mut buf = [0; 12];
+        // longest sequence: ESC [ 0 ; 3 x ; 4 x ; 2 2 m
+        let mut buf = [0; 14];
         buf[0] = b'\x1b';
         buf[1] = b'[';
         buf[2] = b'0';
